@@ -79,6 +79,9 @@ def to_z3bool(x):
 
 # ------------------------------------------------------------------ program
 
+OPAQUE_INDEX_MAY_PANIC = False   # set by checks that study panics (C02)
+
+
 class Program:
     """Index over the extracted items of a set of real source files."""
 
@@ -1280,6 +1283,11 @@ class Interp:
         base = self.strip(self.eval_expr(e["e"]))
         idx = self.eval_expr(e["idx"])
         if isinstance(base, Opaque):
+            if OPAQUE_INDEX_MAY_PANIC and not isinstance(idx, RangeV) \
+                    and self.ctx.choose_free(2, "index into an unmodelled collection") == 1:
+                # `collection[i]` on data the encoder does not model (a type definition's variant list, ...): the bound is
+                # not decided, so the panic is a candidate on a tainted path (confirmed natively or dropped)
+                self.panic("index-oob", e, "index into an unmodelled collection may be out of bounds")
             return self.havoc("index-opaque")
         if isinstance(idx, RangeV):
             return self.slice_of(base, idx, e)
@@ -1574,6 +1582,12 @@ class Interp:
             return ok(UNIT)
         if name in ("format", "msgtext", "msgcode", "concat", "stringify", "serde_json::json",
                     "include_str", "include_bytes", "env", "line", "file"):
+            if name == "format" and getattr(self, "format_model", None) is not None and args \
+                    and args[0].get("k") == "lit" and args[0].get("t") == "str":
+                # a harness that studies the text itself (value printing) supplies a model of format!
+                r = self.format_model(self, args[0]["v"], [self.eval_expr(a) for a in args[1:]], e)
+                if r is not None:
+                    return r
             if name in ("format", "msgtext", "msgcode") and args:
                 # opaque text, but functional in the values it is built from
                 sigs = []
